@@ -44,7 +44,46 @@ func coverSitesIn(l *loopInfo) []coverSite {
 
 // lengthOf: v is the length of recv: recv.Len(), len(recv), arrayLen(recv)-like helper, the
 // length recv was made with, or a value defined as one of those.
-func lengthOf(v, recv ssa.Value) bool {
+// paramLenOf: v and recv are parameters of one function that is only called directly, and every
+// call passes, for v, the length of what it passes for recv (n := items.Len(); f(items, n)).
+func paramLenOf(v, recv ssa.Value, depth int) bool {
+	pv, ok1 := v.(*ssa.Parameter)
+	pr, ok2 := recv.(*ssa.Parameter)
+	if !ok1 || !ok2 || pv.Parent() != pr.Parent() || bndCtx == nil || depth > 1 {
+		return false
+	}
+	f := pv.Parent()
+	iv, ir := -1, -1
+	for i, q := range f.Params {
+		if q == pv {
+			iv = i
+		}
+		if q == pr {
+			ir = i
+		}
+	}
+	sites, ok := bndCtx.staticCallers(f)
+	if !ok || len(sites) == 0 || iv < 0 || ir < 0 {
+		return false
+	}
+	for _, s := range sites {
+		args := s.Common().Args
+		if iv >= len(args) || ir >= len(args) {
+			return false
+		}
+		if !lengthOfD(args[iv], args[ir], depth+1) {
+			return false
+		}
+	}
+	return true
+}
+
+func lengthOf(v, recv ssa.Value) bool { return lengthOfD(v, recv, 0) }
+
+func lengthOfD(v, recv ssa.Value, depth int) bool {
+	if paramLenOf(v, recv, depth) {
+		return true
+	}
 	if call, ok := v.(*ssa.Call); ok && staticName(call) == "reflect.Value.NumField" && call.Call.Args[0] == recv {
 		return true
 	}
